@@ -1,7 +1,7 @@
 /-
   C01 — dictable behaves as a rectangular list of records under any operation history.
   Property theorems only (helper lemmas: PygProofs/Lemmas/TableLemmas, TableRect, TableRows, TableCons, TableNodup,
-  SliceLemmas, TableAbs, TableAbs2, TableAbsHeap, TableCall).
+  SliceLemmas, TableAbs, TableAbs2, TableAbsHeap, TableCall, TableMaskPlain, TableRagged, TableAlias).
 
   The model is the history machine `step : Heap → Op → Heap × Out` of PygModel/Table.lean; `run` folds it
   over an operation list.  Clauses of the property text and the theorems that state them:
@@ -22,6 +22,9 @@
     * update, tuple projection ........................................ `update_all`, `update_misfit`, `tup_rows`
     * column order of concatenations (python set) ..................... `RecsEquiv`, `concat_keys_perm`, `concat_any_order`, `equiv_observe`
     * stretch .......................................................... `concat_assoc`, `mask_col`
+    * review round 2: masks against a reading without `zipper` ........ `abs_getMask_plain`, `mask_plain_exact`, `mask_one_row_repeats`
+                      rows + header, ragged rows ....................... `new_rows_ragged`, `spec_new_rows_ragged`, `new_rows_ragged_header1`
+                      aliasing (handles as pointers, TableAlias.lean) .. `rframe_step`, `ralias_shared`, `rrect_step`, `rabs_step`
 -/
 import PygProofs.Lemmas.TableAbsHeap
 import PygProofs.Lemmas.TableCall
@@ -1997,6 +2000,16 @@ theorem rrect_run (ops : List ROp) (s : RefHeap) (hs : HeapRect s.cells) (hw : s
 
 theorem rrect_run_empty (ops : List ROp) : HeapRect (rrun .empty ops).cells ∧ (rrun .empty ops).WF :=
   rrect_run ops .empty HeapRect.nil (by intro c hc; cases hc)
+
+/-- the simulation theorem carries over to the reference heap: its cells, read as records, evolve by the
+list-of-records machine `specStep` under the translated operation, with the same outcome — `rstep` IS
+`step` on the cells, so `abs_step` applies verbatim (the pointer table is bookkeeping on top) -/
+theorem rabs_step (s : RefHeap) (o : Op) (hs : HeapRect s.cells) :
+    (rstep s (.op o)).1.cells.map abs =
+      (specStep (s.cells.map abs) (o.mapHandles s.cellOf s.cells.length)).1 ∧
+    (step s.cells (o.mapHandles s.cellOf s.cells.length)).2 =
+      (specStep (s.cells.map abs) (o.mapHandles s.cellOf s.cells.length)).2 :=
+  abs_step s.cells _ hs
 
 /-- the history `d = dictable(a=[1,2]); e = d + None; e['z'] = 5`: `d` has the column `z` -/
 example : (rrun .empty [.op (.new 0 .none Option.none [("a", .many [.int 1, .int 2])]), .bindAlias 1 0,
